@@ -5,7 +5,7 @@
    rational coordinate and every string/length (no bound).
    This file holds only statements closed by [exact] and their Print Assumptions. *)
 From Coq Require Import QArith.
-From GV Require Import Prelude GeohashM GeohashP GeohashP2.
+From GV Require Import Prelude GeohashM GeohashP GeohashP2 GeohashP3.
 Open Scope Z_scope.
 
 (* the three shipped tables are consistent *)
@@ -82,3 +82,61 @@ Theorem C11_decode_accepts : forall c, cfg_ok c -> forall s,
   valid c s -> exists r, decode c s = Ok r /\ cell_res (cell_st c s) r.
 Proof. exact decode_valid. Qed.
 Print Assumptions C11_decode_accepts.
+
+(* ... and their areas add up to the parent's area *)
+Theorem C11_children_area : forall c, cfg_ok c -> forall s r,
+  decode c s = Ok r ->
+  exists rs, map (decode c) (subhashes c s) = map Ok rs /\ (qsum (map cell_area rs) == cell_area r)%Q.
+Proof. exact children_area. Qed.
+Print Assumptions C11_children_area.
+
+(* niemeyer_to_geobox: PARTIAL -- only for cells inside the coordinate range whose east edge is
+   west of longitude 180: the box has exactly the cell's corners (nw, se) and contains every
+   coordinate of the closed cell.  The full clause (every in-range cell) is false: D12 below. *)
+Theorem C11_cell_box_contains_partial : forall c, cfg_ok c -> forall s x y ex ey,
+  decode c s = Ok (x, y, ex, ey) ->
+  (-180 <= x - ex -> x + ex < 180 -> -90 <= y - ey -> y + ey <= 90 ->
+   cell_box c s = Ok ((x - ex, y + ey), (x + ex, y - ey)) /\
+   forall p, in_cell p (x, y, ex, ey) ->
+             box_contains ((x - ex, y + ey), (x + ex, y - ey)) p = true)%Q.
+Proof. exact cell_box_contains. Qed.
+Print Assumptions C11_cell_box_contains_partial.
+
+(* D12 (known finding): an in-range cell with east edge 180 whose box has se longitude -180 and
+   does not contain the cell's centre *)
+Theorem C11_cell_box_east_refuted :
+  exists s x y ex ey bx,
+    decode cfg32 s = Ok (x, y, ex, ey) /\
+    (x + ex == 180 /\ -180 <= x - ex /\ -90 <= y - ey /\ y + ey <= 90)%Q /\
+    cell_box cfg32 s = Ok bx /\ (fst (snd bx) == -180)%Q /\ box_contains bx (x, y) = false.
+Proof.
+  destruct cell_box_east_refuted as (s & x & y & ex & ey & bx & A & B & C & D & E & F & G & H).
+  exists s, x, y, ex, ey, bx. tauto.
+Qed.
+Print Assumptions C11_cell_box_east_refuted.
+
+(* ---- non-vacuity: the hypotheses are met by concrete, non-trivial values ---- *)
+(* (-5.6, 42.6) at length 5 in base 32 is "ezs42"; its cell is decoded and re-encoded *)
+Example C11_nonvacuous_encode :
+  in_range cfg32 (-28 # 5, 213 # 5)%Q /\
+  encode cfg32 (-28 # 5, 213 # 5)%Q 5 = [101; 122; 115; 52; 50] /\
+  decode cfg32 [101; 122; 115; 52; 50] = Ok (-11475 # 2048, 87255 # 2048, 45 # 2048, 45 # 2048)%Q /\
+  hin_cell (-28 # 5, 213 # 5)%Q (-11475 # 2048, 87255 # 2048, 45 # 2048, 45 # 2048)%Q.
+Proof.
+  split; [unfold in_range; cbn; unfold Qle; cbn; lia|].
+  split; [vm_compute; reflexivity|]. split; [vm_compute; reflexivity|].
+  unfold hin_cell; cbn; unfold Qle, Qlt; cbn; lia.
+Qed.
+(* a coordinate exactly on a midpoint goes to the lower/western cell (strict >): (0, 0) is in
+   "7" (base 32), whose cell is [-45, 0] x [-45, 0]; an invalid character is really rejected;
+   a base-64 cell really has 64 children; an in-range cell west of 180 really has a box *)
+Example C11_nonvacuous_edges :
+  encode cfg32 (0, 0)%Q 1 = [55] /\ decode cfg32 [55] = Ok (-45 # 2, -45 # 2, 45 # 2, 45 # 2)%Q /\
+  decode cfg32 [101; 97] = Err ValueError /\ ~ In 97 (charset cfg32) /\
+  length (subhashes cfg64 [48; 95]) = 64%nat /\
+  (exists bx, cell_box cfg16 [57; 98] = Ok bx /\ box_contains bx (315 # 4, -225 # 4)%Q = true).
+Proof.
+  split; [vm_compute; reflexivity|]. split; [vm_compute; reflexivity|].
+  split; [vm_compute; reflexivity|]. split; [cbn; lia|].
+  split; [vm_compute; reflexivity|]. eexists. split; vm_compute; reflexivity.
+Qed.
